@@ -2,5 +2,5 @@
 # dev helper: extract + verify one unit
 u=$1; shift
 mkdir -p /var/tmp/vxw
-/verif/tools/vx/target/release/vx extract --repo ${REPO:-/repo} --spec /verif/contracts/units/$u.vspec --contracts /verif/contracts --out /var/tmp/vxw/$u.rs --map /var/tmp/vxw/$u.map.json --params-baseline /verif/contracts/param_baseline.json || exit 3
+/verif/tools/vx/target/release/vx extract --repo ${REPO:-/repo} --spec /verif/contracts/units/$u.vspec --contracts /verif/contracts --out /var/tmp/vxw/$u.rs --map /var/tmp/vxw/$u.map.json --params-baseline /verif/contracts/param_baseline.json --fn-baseline /verif/contracts/fn_baseline.json || exit 3
 cd /var/tmp/vxw && verus $u.rs --edition 2024 "$@" 2>&1 | grep -v "^warning: field" -A0 | grep -vE "inconsistent_fields|syntax will not be available"
